@@ -6,7 +6,7 @@ CONSTANTS
   Sorted <- MCSorted
   Locals = {""}
   PrefixPool = {"", "pkg"}
-  HintNames = {"d", ".", "q"}
+  HintNames = {"d", ".", "q", ""}
   BodyPool <- BodyRefs
   FragPool <- Frags
   FileMeta <- Meta0
